@@ -213,9 +213,11 @@ fn worker(
             want_sample: sampler && !failed_before && nsamples.get() < 8,
         };
         if trace {
-            eprintln!("TRACE {} {}", fam_name, hex(&bytes));
+            eprintln!("TRACE {} {} {:?}", fam_name, hex(&bytes), std::thread::current().id());
         }
+        crate::crash::enter(fam_name, &bytes);
         let info = fam_run(&bytes, &ctx);
+        crate::crash::leave();
         if !failed_before {
             if info.nontrivial && info.sample.is_some() && info.skip.is_none() {
                 nsamples.set(nsamples.get() + 1);
@@ -247,7 +249,9 @@ fn worker(
                 strict: false,
                 want_sample: true,
             };
+            crate::crash::enter(fam_name, &bytes);
             let info = fam_run(&bytes, &ctx);
+            crate::crash::leave();
             let failure = info.failure.unwrap_or(Failure {
                 signature: first_sig.borrow().clone().unwrap_or_default(),
                 detail: "failure did not reproduce on the shrunk input (flaky?)".into(),
@@ -273,10 +277,12 @@ pub fn run_family(fam: &Family, prop_id: &str, tier: Tier, seed: u64) -> Stats {
         Tier::Quick => fam.quick,
         Tier::Thorough => fam.thorough,
     };
-    let per = (total + WORKERS as u64 - 1) / WORKERS as u64;
+    // PVH_WORKERS is a debugging aid; the registered commands always use 16 workers
+    let nworkers = std::env::var("PVH_WORKERS").ok().and_then(|s| s.parse::<usize>().ok()).unwrap_or(WORKERS).max(1);
+    let per = (total + nworkers as u64 - 1) / nworkers as u64;
     let base = splitmix(seed ^ hash_str(prop_id) ^ hash_str(fam.name).rotate_left(17));
     let mut handles = vec![];
-    for w in 0..WORKERS {
+    for w in 0..nworkers {
         let run = fam.run;
         let name = fam.name;
         let max_len = fam.max_len;
@@ -393,6 +399,7 @@ fn write_replay(prop: &str, family: &str, tier: Tier, seed: u64, f: &Failure, by
 
 pub fn run_property(prop: &PropertyDef, tier: Tier, seed: u64) -> RunResult {
     let t0 = Instant::now();
+    crate::crash::install(prop.id, &verif_dir());
     let mut stats = Stats::default();
     let mut infra_problem = false;
 
@@ -424,7 +431,9 @@ pub fn run_property(prop: &PropertyDef, tier: Tier, seed: u64) -> RunResult {
         want_sample: true,
     };
     for fx in &prop.fixed {
+        crate::crash::enter(&format!("fixed:{}", fx.name), &[]);
         let info = (fx.run)(&ctx);
+        crate::crash::leave();
         stats.record(&info);
         if let Some(f) = info.failure {
             stats.failures.push((format!("fixed:{}", fx.name), f, None));
@@ -476,6 +485,35 @@ pub fn run_property(prop: &PropertyDef, tier: Tier, seed: u64) -> RunResult {
         if let Err(e) = c(tier, seed, &mut stats) {
             eprintln!("INFRA: {}", e);
             infra_problem = true;
+        }
+    }
+
+    // 4c. coverage-guided stage (thorough tier): libFuzzer over the same bytes -> decoder -> oracle
+    let mut fuzz_report: Vec<Value> = vec![];
+    if tier == Tier::Thorough && std::env::var("PVH_NO_FUZZ").is_err() {
+        for (fam_name, runs) in fuzz_plan(prop.id) {
+            if let Some(fam) = prop.families.iter().find(|f| f.name == fam_name) {
+                match fuzz_stage(prop.id, fam, runs, seed) {
+                    Ok((report, crash)) => {
+                        fuzz_report.push(report);
+                        if let Some(bytes) = crash {
+                            let info = (fam.run)(&bytes, &ctx);
+                            stats.record(&info);
+                            match info.failure {
+                                Some(f) => stats.failures.push((fam.name.to_string(), f, Some(bytes))),
+                                None => {
+                                    eprintln!("INFRA: libFuzzer reported a crash for {}:{} that does not reproduce in-process", prop.id, fam.name);
+                                    infra_problem = true;
+                                }
+                            }
+                        }
+                    }
+                    Err(e) => {
+                        eprintln!("note: fuzz stage for {}:{} skipped: {}", prop.id, fam.name, e);
+                        fuzz_report.push(json!({"family": fam.name, "skipped": e}));
+                    }
+                }
+            }
         }
     }
 
@@ -551,6 +589,7 @@ pub fn run_property(prop: &PropertyDef, tier: Tier, seed: u64) -> RunResult {
             "exhaustive": false,
             "exhaustive_subspace": exhaustive_desc,
             "workers": WORKERS,
+            "libfuzzer_stage": fuzz_report,
         },
         "assumptions": prop.assumptions,
         "wall_s": wall,
@@ -587,6 +626,84 @@ pub fn run_property(prop: &PropertyDef, tier: Tier, seed: u64) -> RunResult {
         0
     };
     RunResult { exit }
+}
+
+/// Families that get a libFuzzer campaign in the thorough tier, with the number of runs.
+fn fuzz_plan(prop: &str) -> Vec<(&'static str, u64)> {
+    let runs = std::env::var("PVH_FUZZ_RUNS").ok().and_then(|s| s.parse::<u64>().ok());
+    let plan: Vec<(&'static str, u64)> = match prop {
+        "C01" => vec![("all-kinds", 300_000), ("lists-dense", 300_000)],
+        "C02" => vec![("tree", 150_000), ("flat", 150_000)],
+        "C03" => vec![("tree-compound", 200_000)],
+        "C10" => vec![("prefix-branches", 150_000)],
+        "C16" => vec![("fd-full", 300_000)],
+        "C17" => vec![("fd-full", 300_000)],
+        "C18" => vec![("window", 500_000)],
+        "C19" => vec![("clpz", 500_000)],
+        "C20" => vec![("tree-compound", 150_000)],
+        "C21" => vec![("terms", 400_000)],
+        "C22" => vec![("tree", 200_000)],
+        "C23" => vec![("tree-large", 100_000), ("fd-large", 100_000), ("search-large", 60_000)],
+        _ => vec![],
+    };
+    plan.into_iter().map(|(f, n)| (f, runs.unwrap_or(n))).collect()
+}
+
+/// Runs `cargo +nightly fuzz run` on the generic target for one family. Returns a report and
+/// the crashing input, if any.
+fn fuzz_stage(prop: &str, fam: &Family, runs: u64, seed: u64) -> Result<(Value, Option<Vec<u8>>), String> {
+    let root = verif_dir();
+    let work = format!("{}/work/fuzz/{}-{}", root, prop, fam.name);
+    let corpus = format!("{}/corpus", work);
+    let artifacts = format!("{}/artifacts/", work);
+    let _ = std::fs::remove_dir_all(&work);
+    std::fs::create_dir_all(&corpus).map_err(|e| e.to_string())?;
+    std::fs::create_dir_all(&artifacts).map_err(|e| e.to_string())?;
+    // a few seeds: the all-zero input of several lengths and a committed seed corpus if present
+    for (i, n) in [1usize, fam.max_len / 2, fam.max_len].iter().enumerate() {
+        let _ = std::fs::write(format!("{}/zero{}", corpus, i), vec![0u8; *n]);
+    }
+    let committed = format!("{}/corpus/{}-{}", root, prop, fam.name);
+    let t0 = Instant::now();
+    let mut cmd = std::process::Command::new("cargo");
+    cmd.arg("+nightly").arg("fuzz").arg("run").arg("--fuzz-dir").arg(format!("{}/fuzz", root)).arg("family").arg(&corpus);
+    if std::path::Path::new(&committed).is_dir() {
+        cmd.arg(&committed);
+    }
+    cmd.arg("--")
+        .arg(format!("-runs={}", runs))
+        .arg(format!("-seed={}", (seed % 4_000_000_000).max(1)))
+        .arg("-len_control=0")
+        .arg(format!("-max_len={}", fam.max_len))
+        .arg(format!("-artifact_prefix={}", artifacts))
+        .arg("-print_final_stats=1")
+        .current_dir(format!("{}/harness", root))
+        .env("PVH_FUZZ_TARGET", format!("{}:{}", prop, fam.name))
+        .env("RUSTFLAGS", "--cfg terohuttunen_proto_vulcan_verif")
+        .env("CARGO_NET_OFFLINE", "true");
+    let out = cmd.output().map_err(|e| format!("cannot run cargo fuzz: {}", e))?;
+    let err = String::from_utf8_lossy(&out.stderr).to_string();
+    if err.contains("no such command: `fuzz`") || err.contains("toolchain 'nightly") {
+        return Err("cargo-fuzz / nightly toolchain not available".into());
+    }
+    let executed = err.lines().find_map(|l| l.strip_prefix("stat::number_of_executed_units:").map(|x| x.trim().parse::<u64>().unwrap_or(0))).unwrap_or(0);
+    let corpus_size = std::fs::read_dir(&corpus).map(|d| d.count()).unwrap_or(0);
+    let mut crash = None;
+    if !out.status.success() {
+        if let Ok(rd) = std::fs::read_dir(&artifacts) {
+            for e in rd.flatten() {
+                if let Ok(b) = std::fs::read(e.path()) {
+                    crash = Some(b);
+                    break;
+                }
+            }
+        }
+        if crash.is_none() {
+            let tail: Vec<&str> = err.lines().rev().take(12).collect();
+            return Err(format!("cargo fuzz failed without an artifact: {}", tail.into_iter().rev().collect::<Vec<_>>().join(" | ")));
+        }
+    }
+    Ok((json!({"family": fam.name, "engine": "libFuzzer (cargo-fuzz, ASan)", "runs_requested": runs, "executed_units": executed, "corpus_files": corpus_size, "crash": crash.is_some(), "wall_s": t0.elapsed().as_secs_f64()}), crash))
 }
 
 pub fn read_replay(path: &str) -> Option<(String, Vec<u8>)> {
@@ -626,6 +743,8 @@ pub fn replay(props: &[PropertyDef], path: &str, strict: bool) -> i32 {
         strict,
         want_sample: true,
     };
+    crate::crash::install(prop.id, &verif_dir());
+    crate::crash::enter(fam, &unhex(v["bytes"].as_str().unwrap_or("")));
     let info = if let Some(name) = fam.strip_prefix("fixed:") {
         match prop.fixed.iter().find(|f| f.name == name) {
             Some(f) => (f.run)(&ctx),
